@@ -35,26 +35,13 @@ Arguments RChild {A} a.
    classes the renderer does not know *)
 Definition is_serializable_err (id : nat) : bool := Nat.leb 100 id.
 
-(* pred_to_err_message is defined for the built-in predicates only *)
-Definition sort_class (v : pyval) : nat :=
-  match v with
-  | VBool _ | VInt _ | VFloat _ | VDecimal _ => 1
-  | VStr _ => 2 | VBytes _ => 3 | VDate _ => 4 | VDatetime _ None => 5 | VDatetime _ (Some _) => 6
-  | VUuid _ => 7
-  | _ => 0
-  end.
-
-Definition sortable (cs : list pyval) : bool :=
-  match cs with
-  | [] | [_] => true
-  | c :: rest => negb (Nat.eqb (sort_class c) 0) && forallb (fun x => Nat.eqb (sort_class x) (sort_class c)) rest
-  end.
-
+(* pred_to_err_message is defined for the built-in predicates only.  Choices lists its members sorted;
+   members that cannot be ordered against each other (1 and "a") are listed in repr order (since the
+   C12 repair - before it, sorted() raised TypeError and this definition carried a "sortable" side condition) *)
 Definition pred_message_ok (p : predref) : bool :=
   match p with
   | PRAsync _ => false
   | PRSync (PUser _) => false
-  | PRSync (PChoices cs) => sortable cs
   | PRSync _ => true
   end.
 
